@@ -161,4 +161,108 @@ def parseKey (key : List Char) : List Char × List Char :=
   | (db, none) => (db, [])
   | (db, some rest) => (db, rest)
 
+/-! ### `Base`: the key accessors of base.go as a small state machine -/
+
+/-- The two key fields of `record.Base` (strings as character lists). -/
+structure Base where
+  dbName : List Char
+  dbKey : List Char
+  deriving Repr, DecidableEq
+
+/-- A freshly allocated record: no key. -/
+def Base.fresh : Base := ⟨[], []⟩
+
+/-- `KeyIsSet`: `b.dbName != ""`. -/
+def Base.keyIsSet (b : Base) : Bool := b.dbName ≠ []
+/-- `Key`: `b.dbName + ":" + b.dbKey`. -/
+def Base.key (b : Base) : List Char := b.dbName ++ ':' :: b.dbKey
+def Base.databaseName (b : Base) : List Char := b.dbName
+def Base.databaseKey (b : Base) : List Char := b.dbKey
+/-- `SetKey`: parsed and stored only while no key is set; otherwise ignored (an error is logged). -/
+def Base.setKey (b : Base) (key : List Char) : Base :=
+  if b.keyIsSet then b else ⟨(parseKey key).1, (parseKey key).2⟩
+/-- `ResetKey`. -/
+def Base.resetKey (_b : Base) : Base := ⟨[], []⟩
+
+/-! ### `Marshal` / `MarshalRecord` of wrappers and typed records with their error exits
+    (`Meta() == nil`, format mismatch, failing codec) -/
+
+inductive MErr where
+  | missingMeta     -- "missing meta"
+  | formatMismatch  -- "could not dump model, wrapped object format mismatch"
+  | codec           -- dsd.Dump of the typed record failed (third-party codec / unsupported format)
+  deriving Repr, DecidableEq
+
+def MErr.str : MErr → String
+  | .missingMeta => "missing-meta" | .formatMismatch => "mismatch" | .codec => "codec"
+
+/-- `Wrapper.Marshal(r, format)`; `none` is Go's `nil, nil` of a deleted record. -/
+def wrapperMarshal (md : Option Meta) (wformat : UInt8) (data : Bytes) (format : UInt8) : Except MErr (Option Bytes) :=
+  match md with
+  | none => .error .missingMeta
+  | some m =>
+    if m.deleted > 0 then .ok none
+    else if format.toNat ≠ fAUTO ∧ format ≠ wformat then .error .formatMismatch
+    else .ok (some (wformat :: data))
+
+/-- `Wrapper.MarshalRecord`: version, meta block, then `Wrapper.Marshal(r, dsd.AUTO)`. -/
+def wrapperMarshalRecord (md : Option Meta) (wformat : UInt8) (data : Bytes) : Except MErr Bytes :=
+  match md with
+  | none => .error .missingMeta
+  | some m =>
+    match wrapperMarshal md wformat data (UInt8.ofNat fAUTO) with
+    | .error e => .error e
+    | .ok ds => .ok (marshalRecord m (ds.getD []))
+
+/-- `Base.Marshal(self, format)`: `dump f` is `dsd.Dump(self, f)` (`none` = it returned an error). -/
+def baseMarshal (md : Option Meta) (dump : Nat → Option Bytes) (format : Nat) : Except MErr (Option Bytes) :=
+  match md with
+  | none => .error .missingMeta
+  | some m =>
+    if m.deleted > 0 then .ok none
+    else match dump format with
+      | none => .error .codec
+      | some d => .ok (some d)
+
+/-- `Base.MarshalRecord`: version, meta block, then `Base.Marshal(self, dsd.JSON)`. -/
+def baseMarshalRecord (md : Option Meta) (dump : Nat → Option Bytes) : Except MErr Bytes :=
+  match md with
+  | none => .error .missingMeta
+  | some m =>
+    match baseMarshal md dump fJSON with
+    | .error e => .error e
+    | .ok ds => .ok (marshalRecord m (ds.getD []))
+
+/-! ### `Unwrap` (wrapper.go) -/
+
+/-- A typed record: key fields, metadata pointer, and the value of its own fields. -/
+structure Typed (α : Type) where
+  base : Base
+  md : Option Meta
+  val : α
+
+inductive UErr where
+  | notWrapper   -- "cannot unwrap %T": the first argument is not a *Wrapper
+  | load         -- dsd.LoadAsFormat failed
+  deriving Repr, DecidableEq
+
+/-- `Unwrap(wrapped, r)`: `wrapped = none` stands for a record that is not a `*Wrapper`; `load f data` is
+    `dsd.LoadAsFormat(data, f, r)` (`none` = error); the codec is taken to leave the key fields of `r` alone
+    (true of encoding/json, which never touches unexported fields; msgpack's array form resets the whole struct —
+    the harness hands keyed targets to JSON payloads only). On success the key is transferred with
+    `r.SetKey(wrapped.Key())` (ignored if `r` already has a key) and the metadata pointer is shared. -/
+def unwrap {α : Type} (load : Nat → Bytes → Option α) (wrapped : Option (Base × Wrapper)) (r : Typed α) :
+    Except UErr (Typed α) :=
+  match wrapped with
+  | none => .error .notWrapper
+  | some (wb, w) =>
+    match load w.format w.data with
+    | none => .error .load
+    | some v => .ok ⟨r.base.setKey wb.key, some w.md, v⟩
+
+/-- `Meta.Duplicate`: a new struct with every field copied. -/
+def Meta.duplicate (m : Meta) : Meta :=
+  { created := m.created, modified := m.modified, expires := m.expires, deleted := m.deleted,
+    secret := m.secret, crownjewel := m.crownjewel }
+
 end PB.Record
